@@ -21,6 +21,7 @@ import Lomond.Model.ConnectLink
 import Lomond.Model.PersistLink
 import Lomond.Model.ZFrame
 import Lomond.Model.DeflEnc
+import Lomond.Model.CloseSocket
 import Lomond.Generated.Code
 
 namespace Lomond.Driver
@@ -778,6 +779,7 @@ def handle (line : String) : String :=
     | "http" :: args => runHttp args
     | "deflenc" :: args => runDeflEnc args
     | "reconnect" :: args => Reconnect.runDriver args
+    | "closesock" :: args => CloseSock.runDriver args
     -- differential test of harness/py2lean.py: evaluate a generated definition
     | "gen" :: name :: args => Gen.Code.dispatch name args
     | _ => "bad-op"
